@@ -101,7 +101,9 @@ def run(tier, seed):
             n2, b2 = rng.choice(fam)
             name, body = name + "+" + n2, "do " + body + " end do " + b2 + " end"
         progs.append(("%s/%s" % (w, name), qprogs.wrap(w, body)))
-    base_lines = ["p%d %s cpu=%d mem=%d" % (i, hexs(src), BIG, BIG) for i, (_, src) in enumerate(progs)]
+    # every other program runs with a CPU limit only (no memory limit): different tracking and GC-pool policy
+    memarg = [(" mem=%d" % BIG) if i % 2 == 0 else "" for i in range(len(progs))]
+    base_lines = ["p%d %s cpu=%d%s" % (i, hexs(src), BIG, memarg[i]) for i, (_, src) in enumerate(progs)]
     base = [parse(l) for l in vlib.run_lines_resilient(gvh, ["lua"], base_lines, per_case_timeout=30)]
 
     cases = []   # (prog index, L)
@@ -118,7 +120,7 @@ def run(tier, seed):
         for L in sorted(Ls):
             if L >= 1:
                 cases.append((i, L))
-    lines = ["c%d %s cpu=%d mem=%d" % (k, hexs(progs[i][1]), L, BIG) for k, (i, L) in enumerate(cases)]
+    lines = ["c%d %s cpu=%d%s" % (k, hexs(progs[i][1]), L, memarg[i]) for k, (i, L) in enumerate(cases)]
     t0 = time.time()
     outs = [parse(l) for l in vlib.run_lines_resilient(gvh, ["lua"], lines, per_case_timeout=30)]
     ck.log("%d programs, %d limited runs in %.1fs" % (len(progs), len(cases), time.time() - t0))
@@ -133,7 +135,18 @@ def run(tier, seed):
         rep = {"kind": "Go!=S", "engine": "lua", "program": src, "family": name, "limit_cpu": L, "unlimited_usage": u,
                "baseline": b["raw"][:500], "limited": o["raw"][:500]}
         if o["status"] in ("CRASH", "HANG"):
-            ck.violation("limited run crashed/hung: %s cpu=%d" % (name, L), rep)
+            k = None
+            if o["status"] == "CRASH":
+                try:
+                    tail = bytes.fromhex(o["raw"].split(" ")[3]).decode("utf-8", "replace")
+                except (ValueError, IndexError):
+                    tail = ""
+                if "TerminateContext" in tail and "cleanupCloseStack" in tail and "Thread).end" in tail:
+                    k = ck.known_match(lambda kf: kf.get("match", {}).get("class") == "termination-in-close-handler-run-by-thread-end")
+            if k:
+                ck.known_finding(k)
+            else:
+                ck.violation("limited run crashed/hung: %s cpu=%d" % (name, L), rep)
             continue
         fail = None
         dev = interception(o["trace"], b["trace"])
@@ -227,6 +240,31 @@ def run(tier, seed):
                 rep["failure"] = fail
                 ck.violation("%s wrapper: %s" % (w, fail), rep)
 
+    # ------------------------------------------------------------ finalisers of a killed context never run (not even later, in the parent)
+    gc_cases = []
+    for inner in ("{kill={cpu=2000}}", "{kill={cpu=2000,memory=1000000}}", "{kill={memory=4000}}", "{kill={cpu=2000},stop={cpu=100}}"):
+        for body in ("while true do end", "local t={} while true do t[#t+1]=#t end"):
+            if "cpu" not in inner and "t={}" not in body:
+                continue   # a memory-only limit cannot stop a loop that does not allocate
+            src = ("local keep={} local c=runtime.callcontext(%s,function() "
+                   "for i=1,5 do keep[i]=setmetatable({},{__gc=function() local n=0 for j=1,1000 do n=n+j end emit('gc-of-killed-ran',n) end}) end "
+                   "%s end) emit('ctx',c.status) keep=nil collectgarbage() collectgarbage() emit('end')" % (inner, body))
+            gc_cases.append((inner, src))
+    glines = ["g%d %s" % (k, hexs(src)) for k, (_, src) in enumerate(gc_cases)] + \
+             ["G%d %s cpu=%d" % (k, hexs(src), 50000000) for k, (_, src) in enumerate(gc_cases)]
+    gouts = [parse(l) for l in vlib.run_lines_resilient(gvh, ["lua"], glines, per_case_timeout=30)]
+    for (inner, src), o in zip(gc_cases + gc_cases, gouts):
+        ck.case("gc:" + o["id"] + src, True)
+        ck.count("gc-in-killed-context")
+        evs = [decode_event(e) for e in o.get("trace", [])]
+        rep = {"kind": "Go!=S", "engine": "lua", "program": src, "limited": o["raw"][:600]}
+        if o["status"] in ("CRASH", "HANG"):
+            ck.violation("finaliser/killed-context program crashed or hung", rep)
+        elif ["ctx", "killed"] not in evs:
+            ck.violation("explicit context %s with a non-terminating body did not end 'killed'" % inner, rep)
+        elif any(e[0] == "gc-of-killed-ran" for e in evs):
+            ck.violation("a __gc finaliser of a value created in a killed context ran (the killed computation continues from its finaliser)", rep)
+
     # ------------------------------------------------------------ amplification: no unmetered operation
     amp_cases = []
     exps = (10, 16, 20, 24, 30, 34, 40) if tier == "quick" else tuple(range(8, 41, 2))
@@ -276,7 +314,8 @@ def replay(path, seed):
     ck = vlib.Check("C05", "quick", seed)
     gvh, _ = ck.build_gvh()
     src = r["program"]
-    lines = ["base %s cpu=%d mem=%d" % (hexs(src), BIG, BIG), "lim %s cpu=%d mem=%d" % (hexs(src), r.get("limit_cpu", 1000), BIG)]
+    lines = ["base %s cpu=%d mem=%d" % (hexs(src), BIG, BIG), "lim %s cpu=%d mem=%d" % (hexs(src), r.get("limit_cpu", 1000), BIG),
+             "limcpuonly %s cpu=%d" % (hexs(src), r.get("limit_cpu", 1000)), "nolimit %s" % hexs(src)]
     for l in vlib.run_lines_resilient(gvh, ["lua"], lines, per_case_timeout=30):
         print(l[:800])
     return 0
